@@ -10,7 +10,7 @@ from vlib import core  # noqa: E402
 
 
 def checks():
-    from vlib import fam_import, fam_chroot, fam_frontend, fam_compile, fam_seq, fam_eval, fam_ints, fam_datamodel, fam_relmod, fam_db
+    from vlib import fam_import, fam_chroot, fam_frontend, fam_compile, fam_seq, fam_eval, fam_ints, fam_datamodel, fam_relmod, fam_db, fam_det
     table = {
         "C05": fam_import.check_c05,
         "C06": fam_import.check_c06,
@@ -26,6 +26,7 @@ def checks():
         "C15": fam_datamodel.check_c15,
         "C17": fam_relmod.check_c17,
         "C16": fam_db.check_c16,
+        "C19": fam_det.check_c19,
     }
     for mod, names in OPTIONAL:
         try:
